@@ -33,7 +33,7 @@ CLAIMS = {
    text='Theorems C11_view, C11_set_userinfo, C11_set_host, C11_set_port (each editor: no panic, the handle invariant is re-established for the authority with exactly that sub-component replaced, before/after untouched; all branches: replace, insert with delimiter, remove with delimiter, no-op) and C11_history: ANY finite history of calls through one handle with delimiter-valid arguments keeps the invariant, so the handle always views exactly the current authority. C11_history_valid_URI / _IRI: AT THE LEVEL OF THE RFC GRAMMAR, a handle viewing any string of the authority language views a string of the authority language again after any history of edits with component-valid arguments (factorisation of the authority grammar in both directions). The model carries the `end` arithmetic of the code and is compared with the implementation after every call.',
    note=TB),
  'C12': dict(cat='proof', tech='Coq proof (induction over an arbitrary next/next_back script) + model/implementation correspondence with the /-split oracle',
-   text='Theorems C12_interleave / C12_interleave_at (for every non-empty path and EVERY finite script of next/next_back calls the iterator model never panics and yields segment k from the front, n-m-1 from the back, None after the cursors meet), C12_segments_are_the_split (forward iteration of any path free of \'?\' \'#\' = the \'/\'-split of the text), C12_join_split. Derived queries: C12_last (last() = the last piece of the split, no panic), C12_parent / C12_parent_or_empty (the text up to the last \'/\', "/" for "/x", the library\'s "/./" for "//x", None / "" when there is nothing to cut); C12_directory (for EVERY byte string, the text up to and including the last \'/\'); first, file_name and the counts are modelled (PathQ.v) and compared with the implementation and an independent split oracle.',
+   text='Theorems C12_interleave / C12_interleave_at (for every non-empty path and EVERY finite script of next/next_back calls the iterator model never panics and yields segment k from the front, n-m-1 from the back, None after the cursors meet), C12_segments_are_the_split (forward iteration of any path free of \'?\' \'#\' = the \'/\'-split of the text), C12_join_split. Derived queries: C12_last (last() = the last piece of the split, no panic), C12_parent / C12_parent_or_empty (the text up to the last \'/\', "/" for "/x", the library\'s "/./" for "//x", None / "" when there is nothing to cut); C12_directory (for EVERY byte string, the text up to and including the last \'/\'); C12_first, C12_file_name; the counts are modelled (PathQ.v) and compared with the implementation and an independent split oracle.',
    note=TB),
  'C20': dict(cat='proof', tech='Coq proof of range ordering/containment over the scanner model; allocation counting and pointer-range observation in the harness',
    text='Theorems C20_reference_ranges / C20_authority_ranges: the ranges returned by the decomposition of any well-formed reference/authority are well-formed, ordered, disjoint and inside '
@@ -57,7 +57,7 @@ CLAIMS = {
    text="Theorems C09_normalized_segments_of_text (for every path free of '?' and '#' the normalized-segment iterator of the model yields exactly `norm` -- drop '.', '..' pops / is kept when relative and nothing is left / is dropped at the root -- of the '/'-split of the text), C09_normalized_segments, C09_normal_form, C09_idempotent, C09_render_segs. IN-PLACE normalize(): C09_normalize_in_place (index-level handle: no panic, bytes before and after the path untouched, offsets coherent, the view becomes normalize1 v), C09_normalize_text (normalize1 v = rendering, with v's absoluteness, of the specification walk on the '/'-split, preceded by one '.' segment exactly when the code writes its './' shield), C09_normalize_keeps_absoluteness. THE COPYING normalized(): C09_normalized_partial (fold of symbolic pushes through fresh handles + closing segment, index-level model: no panic and exactly RFC 3986 5.2.4 on every path without an empty segment before its last one and without a segment that needs the './' colon shield; C09_normalized_witnesses shows both exclusions are needed -- findings K_G11, K_shield_left). On the excluded shapes it is judged by the rendering oracle together with all entry points (stand-alone and embedded, > 16 segments / > 512 bytes, twice through one handle): partial. Known findings K_G11, K_shield_left.",
    note=TB + 'Interpretations I4, I8.'),
  'C10': dict(cat='proof', tech='Coq proof of the push law for all byte strings + L0 handle model correspondence + list-semantics oracle per edit',
-   text='Theorems C10_push_law (push appends exactly the pushed segment, for EVERY byte string and context, all five branches), C10_push_handle (the same for the INDEX-LEVEL handle that is compared with the implementation: no panic, invariant buffer = before ++ view ++ after re-established, before/after untouched), C10_clear_handle, C10_clear_no_segments, C10_handle_sequences (any sequence of push/pop/clear through ONE handle performs the list-level edits of the view with coherent offsets and untouched surroundings, i.e. composes like fresh handles). POP: C10_pop_total (on every path free of \'?\' and \'#\' the backward scan never leaves the path; pop = pop_text), C10_pop_law_partial (a non-empty path whose last segment is not \'..\' loses exactly that segment and keeps its absoluteness; the excluded shape "//x" is the recorded finding, C10_K_pop_dslash_witness), C10_pop_pushes_dotdot, C10_pop_handle / C10_symbolic_push_handle / C10_symbolic_append_handle (index-level handle: no panic, frame untouched, path stays well-formed in its context, text-level result sym_push1 / sym_append1). The list-level reading of the symbolic operations (what \'..\' removes when the path is a lone \'.\' etc.) is compared after every edit with list-semantics laws and frame checks: partial. Known findings K_pop_dslash, K_dot_only, K_G11.',
+   text='Theorems C10_push_law (push appends exactly the pushed segment, for EVERY byte string and context, all five branches), C10_push_handle (the same for the INDEX-LEVEL handle that is compared with the implementation: no panic, invariant buffer = before ++ view ++ after re-established, before/after untouched), C10_clear_handle, C10_clear_no_segments, C10_handle_sequences (any sequence of push/pop/clear through ONE handle performs the list-level edits of the view with coherent offsets and untouched surroundings, i.e. composes like fresh handles). POP: C10_pop_total (on every path free of \'?\' and \'#\' the backward scan never leaves the path; pop = pop_text), C10_pop_law_partial (a non-empty path whose last segment is not \'..\' loses exactly that segment and keeps its absoluteness; the excluded shape "//x" is the recorded finding, C10_K_pop_dslash_witness), C10_pop_pushes_dotdot, C10_pop_handle / C10_symbolic_push_handle / C10_symbolic_append_handle (index-level handle: no panic, frame untouched, path stays well-formed in its context, text-level result sym_push1 / sym_append1). C10_symbolic_append_law_partial / _trailing_partial (THE LIST SEMANTICS of symbolic_append on accumulated paths that are renderings of the specification walk\'s stack: exactly RFC 5.2.4 on the concatenated segment list). The list-level reading of the symbolic operations (what \'..\' removes when the path is a lone \'.\' etc.) is compared after every edit with list-semantics laws and frame checks: partial. Known findings K_pop_dslash, K_dot_only, K_G11.',
    note=TB + 'Interpretations I2, I9.'),
  'C13': dict(cat='proof', tech='Coq proof by reflection: inclusion certificates between the GENERATED validators (regenerated every run) and between the RFC grammars; conversions and cross-family agreement by differential testing',
    text='11 theorems C13_<a>_in_<b> on the DFAs translated from the current tree (every URI type is accepted by its IRI counterpart; Uri in UriRef; Iri in IriRef), plus C13_uri_is_iri, '
